@@ -665,7 +665,7 @@ class CrashMachine(Machine):
         "mxlpy.parallel.parallelise/_load_or_run/_pickle_save/_pickle_load/Cache", "mxlpy.scan.time_course/steady_state incl. Simulator and Scipy integrator",
         "pickle", "the real file system under a scratch directory", "process death by os._exit in a forked child (no finally, no flush)",
     ]
-    stub_components = ["pebble.ProcessPool -> SimPool (in-process, seeded completion order; lockstep back-end: one real thread per task, baton-passing, seeded step choice, pebble timeout semantics checked against the real pool by tools/selftest_stub_fidelity.py)", "tqdm -> silent", "cache file objects -> crash-capable writer behind a pathlib subclass"]
+    stub_components = ["pebble.ProcessPool -> SimPool (in-process, seeded completion order; lockstep back-end: one real thread per task, baton-passing, seeded step choice, pebble timeout semantics checked against the real pool by tools/selftest_stub_fidelity.py)", "os.getpid -> one id per simulated worker (incarnation x slot) inside lockstep task threads", "os.rename / os.replace -> EXDEV for renames into the cache directory from outside in the workloads that put it on another file system", "tqdm -> silent", "cache file objects -> crash-capable writer behind a pathlib subclass"]
     assumptions = [
         "process-kill semantics (what reached the OS survives); power-loss reordering is out of scope",
         "byte-granular torn writes are a superset of what a kill can leave (they include short writes)",
